@@ -15,6 +15,9 @@ type InMemoryFileProvider struct {
 	files         map[string]string
 	modifiedFiles *util.Set[string]
 	deletedFiles  *util.Set[string]
+	// fromFS is set when the files were read from disk, where paths that have
+	// not been loaded into the provider may exist too
+	fromFS bool
 }
 
 func NewInMemoryFileProvider(files map[string]string) *InMemoryFileProvider {
@@ -41,6 +44,7 @@ func NewInMemoryFileProviderFromFS(paths ...string) (*InMemoryFileProvider, erro
 		files:         files,
 		modifiedFiles: util.NewSet[string](),
 		deletedFiles:  util.NewSet[string](),
+		fromFS:        true,
 	}, nil
 }
 
@@ -77,7 +81,7 @@ func (p *InMemoryFileProvider) Rename(from, to string) error {
 	}
 
 	_, ok = p.files[to]
-	if ok {
+	if ok || p.existsOnDisk(to) {
 		return RenameConflictError{
 			From: from,
 			To:   to,
@@ -93,6 +97,18 @@ func (p *InMemoryFileProvider) Rename(from, to string) error {
 	}
 
 	return nil
+}
+
+// existsOnDisk reports if there is something at the location on disk that has
+// not been loaded into the provider, or has been moved away from there already.
+func (p *InMemoryFileProvider) existsOnDisk(file string) bool {
+	if !p.fromFS || p.deletedFiles.Contains(file) {
+		return false
+	}
+
+	_, err := os.Lstat(file)
+
+	return err == nil
 }
 
 func (p *InMemoryFileProvider) Delete(file string) error {
